@@ -292,7 +292,10 @@ pub fn run(ctx: &Ctx) -> Result<()> {
 		if let Some(o) = &only { let p: Vec<&str> = o.split_whitespace().collect(); if p.len() >= 2 && p[0] == target { from = p[1].parse().unwrap_or(0); to = from + 1; } else { continue; } }
 		let _ = std::fs::remove_file(ctx.out.join(format!("c19_{target}.results")));
 		let mut restarts = 0;
-		while from < to && restarts < 25 {
+		let batch: u64 = if target == "mbtiles" { 15 } else { u64::MAX };
+		let to_all = to;
+		while from < to_all && restarts < 400 {
+			let to = to_all.min(from.saturating_add(batch));
 			let mut ch = std::process::Command::new("sh").arg("-c").arg(format!("ulimit -v 6000000; ulimit -s 8192; exec \"$0\" c19child --seed {} --out \"$1\" --replay \"{target} {from} {to}\"", ctx.seed)).arg(&exe).arg(&ctx.out).spawn()?;
 			// watchdog: a case that makes no progress for 40 s is abandoned (counted as slow, not as a violation)
 			let pfile = ctx.out.join(format!("c19_{target}.progress"));
@@ -307,7 +310,7 @@ pub fn run(ctx: &Ctx) -> Result<()> {
 			};
 			if slow { let idx: u64 = last.trim().parse().unwrap_or(from); col.bump(&format!("slow_{target}"), 1); from = idx + 1; restarts += 1; continue; }
 			let prog = std::fs::read_to_string(&pfile).unwrap_or_default();
-			if st.success() && prog == "done" { break; }
+			if st.success() && prog == "done" { from = to; continue; }
 			// the child died while running the case it had announced; the case counts only if it also
 			// brings a fresh process down on its own (resource exhaustion accumulated over many cases does not)
 			let idx: u64 = prog.trim().parse().unwrap_or(from);
@@ -324,7 +327,16 @@ pub fn run(ctx: &Ctx) -> Result<()> {
 		let txt = std::fs::read_to_string(ctx.out.join(format!("c19_{target}.results"))).unwrap_or_default();
 		for l in txt.lines() { let p: Vec<&str> = l.splitn(4, '\t').collect(); if p.len() < 3 { continue; }
 			col.spec_cases += 1; col.bump(&format!("{target}_{}", p[1]), 1); col.bump(&format!("how_{}", p[2].split(' ').next().unwrap_or("")), 1);
-			if p[1] == "panic" { let d = p.get(3).map(|s| s.trim_matches('"').replace("\\\"", "\"")).unwrap_or_default(); col.violation("panic", &format!("{target} {}", p[0]), &format!("{target} {}", p[0]), &d); } }
+			if p[1] == "panic" {
+				// a panic counts only if the case also panics alone in a fresh process (thread / address-space
+				// exhaustion accumulated over hundreds of opened SQLite pools in one child is not the input's doing)
+				let idx: u64 = p[0].parse().unwrap_or(0);
+				let conf = ctx.out.join("c19_confirm"); let _ = std::fs::remove_dir_all(&conf); std::fs::create_dir_all(&conf)?;
+				let _ = std::process::Command::new("sh").arg("-c").arg(format!("ulimit -v 6000000; ulimit -s 8192; exec \"$0\" c19child --seed {} --out \"$1\" --replay \"{target} {idx} {}\"", ctx.seed, idx + 1)).arg(&exe).arg(&conf).status()?;
+				let again = std::fs::read_to_string(conf.join(format!("c19_{target}.results"))).unwrap_or_default();
+				let _ = std::fs::remove_dir_all(&conf);
+				if again.split('\t').nth(1) != Some("panic") { col.bump(&format!("unconfirmed_panic_{target}"), 1); continue; }
+				let d = p.get(3).map(|s| s.trim_matches('"').replace("\\\"", "\"")).unwrap_or_default(); col.violation("panic", &format!("{target} {}", p[0]), &format!("{target} {}", p[0]), &d); } }
 		let _ = std::fs::remove_dir_all(ctx.out.join(format!("c19work_{target}")));
 	}
 	// correspondence with the Coq decoders on malformed input: outcome class of the JSON parser, the
